@@ -1,4 +1,143 @@
-import Props.Lemmas
+/-
+  C10 — vram classes: members overlay at the class start; end is the largest member end.
+-/
+import Props.Writer
+import Props.C18
 namespace Slinky.C10
-theorem placeholder : True := trivial
+open Slinky W
+
+/-- **an emitted segment naming an undeclared class makes generation fail** … -/
+theorem missing_class_is_an_error (cx : Ctx) (em : List Str) (seg : Segment) (c : Str)
+    (hinc : shouldEmit cx.o seg.cond = true) (hc : seg.vramClass = some c)
+    (hnone : findClass cx.d c = none) :
+    addSegment cx em seg = .error (.err .missingVramClassForSegment) := by
+  unfold addSegment classPart
+  simp [hinc, hc, hnone]
+
+/-- … and an excluded one does not. -/
+theorem excluded_segment_is_silent (cx : Ctx) (em : List Str) (seg : Segment)
+    (hexc : shouldEmit cx.o seg.cond = false) : addSegment cx em seg = .ok ([], em) := by
+  unfold addSegment
+  simp [hexc]
+
+/-- **the class symbols are written once, before the first emitted member.** The first emitted
+member of a class opens it: its start symbol — the `fixed_vram` literal, the `fixed_symbol`
+text, or `0` followed by one `MAX` with the end symbol of every followed class — and its end
+symbol `= 0`; the class is then recorded as emitted … -/
+theorem first_member_opens (cx : Ctx) (em : List Str) (seg : Segment) (c : Str) (vc : VramClass)
+    (hc : seg.vramClass = some c) (hf : findClass cx.d c = some vc) (hfirst : c ∉ em) :
+    classPart cx em seg = .ok (classIntro cx c vc, em ++ [c]) ∧
+    classIntro cx c vc =
+      (match vc.fixedVram, vc.fixedSymbol with
+       | some v, _ => [linkerSym (cx.d.settings.style.classStart c) (.hex8 v)]
+       | none, some fs => [linkerSym (cx.d.settings.style.classStart c) (.sym fs)]
+       | none, none => linkerSym (cx.d.settings.style.classStart c) (.hex8 0) ::
+           vc.followsClasses.map (fun o => maxSelf (cx.d.settings.style.classStart c) (cx.d.settings.style.classEnd o)))
+      ++ [linkerSym (cx.d.settings.style.classEnd c) (.hex8 0), .blank] := by
+  constructor
+  · unfold classPart
+    simp [hc, hf, hfirst]
+  · unfold classIntro
+    cases vc.fixedVram <;> cases vc.fixedSymbol <;> rfl
+
+/-- … and every later member finds it emitted and writes nothing for the class again. -/
+theorem later_member_is_silent (cx : Ctx) (em : List Str) (seg : Segment) (c : Str) (vc : VramClass)
+    (hc : seg.vramClass = some c) (hf : findClass cx.d c = some vc) (hseen : c ∈ em) :
+    classPart cx em seg = .ok ([], em) := by
+  unfold classPart
+  simp [hc, hf, hseen]
+
+/-- the list of opened classes only grows, and a class is in it afterwards iff it was before
+or the segment is an emitted member of it. -/
+theorem emitted_grows (cx : Ctx) (em em' : List Str) (seg : Segment) (ls : List Line)
+    (h : addSegment cx em seg = .ok (ls, em')) :
+    ∀ c, c ∈ em' ↔ c ∈ em ∨ (shouldEmit cx.o seg.cond = true ∧ seg.vramClass = some c) := by
+  intro c
+  unfold addSegment at h
+  split at h
+  · rename_i hx
+    injection h with h
+    simp only [Prod.mk.injEq] at h
+    rw [← h.2]
+    have : shouldEmit cx.o seg.cond = false := by
+      cases hh : shouldEmit cx.o seg.cond
+      · rfl
+      · simp [hh] at hx
+    simp [this]
+  · rename_i hinc
+    have hs : shouldEmit cx.o seg.cond = true := by
+      cases hh : shouldEmit cx.o seg.cond
+      · simp [hh] at hinc
+      · rfl
+    split at h
+    · contradiction
+    · rename_i cls em1 hcp
+      split at h
+      · contradiction
+      · split at h
+        · contradiction
+        · injection h with h
+          simp only [Prod.mk.injEq] at h
+          rw [← h.2]
+          unfold classPart at hcp
+          split at hcp
+          · rename_i hnone
+            injection hcp with hcp
+            simp only [Prod.mk.injEq] at hcp
+            rw [← hcp.2]
+            simp [hnone]
+          · rename_i cn hsome
+            split at hcp
+            · contradiction
+            · split at hcp
+              · rename_i hin
+                injection hcp with hcp
+                simp only [Prod.mk.injEq] at hcp
+                rw [← hcp.2]
+                simp only [hs, hsome, true_and, Option.some.injEq]
+                constructor
+                · intro h1; exact Or.inl h1
+                · rintro (h1 | h1)
+                  · exact h1
+                  · subst h1; exact hin
+              · injection hcp with hcp
+                simp only [Prod.mk.injEq] at hcp
+                rw [← hcp.2]
+                simp only [hs, hsome, true_and, Option.some.injEq, List.mem_append, List.mem_cons, List.mem_nil_iff, or_false]
+                constructor
+                · rintro (h1 | h1)
+                  · exact Or.inl h1
+                  · exact Or.inr h1.symm
+                · rintro (h1 | h1)
+                  · exact Or.inl h1
+                  · exact Or.inr h1.symm
+
+/-- **every member segment starts at the class start and pushes the class end**: its header
+address is the class start symbol, and after it `END = MAX(END, <seg>_VRAM_END)` is written. -/
+theorem member_statements (cx : Ctx) (seg : Segment) (c : Str) (hc : seg.vramClass = some c)
+    (h1 : seg.fixedVram = none) (h2 : seg.fixedSymbol = none) (h3 : seg.followsSegment = none)
+    (cls alloc noload : List Line) :
+    segAddr cx seg = some (cx.d.settings.style.classStart c) ∧
+    maxSelf (cx.d.settings.style.classEnd c) (cx.d.settings.style.segVramEnd seg.name)
+      ∈ segmentLines cx seg cls alloc noload := by
+  constructor
+  · simp [segAddr, h1, h2, h3, hc]
+  · simp [segmentLines, hc]
+
+/-- **one size symbol per opened class, and none for the others.** The size lines that
+`end_sections` writes first (see `C18.tail`) are exactly `SIZE = END - START` for every
+declared class that was opened, once each, in declaration order. -/
+theorem class_sizes (cx : Ctx) (em : List Str) :
+    C18.classSizes cx em =
+      ((dedup (cx.d.vramClasses.map (·.name))).filter (· ∈ em)).map (fun n =>
+        linkerSym (cx.d.settings.style.classSize n)
+          (.sub (cx.d.settings.style.classEnd n) (cx.d.settings.style.classStart n))) ∧
+    (∀ n, n ∈ (dedup (cx.d.vramClasses.map (·.name))).filter (· ∈ em) ↔
+        (∃ vc ∈ cx.d.vramClasses, vc.name = n) ∧ n ∈ em) ∧
+    ((dedup (cx.d.vramClasses.map (·.name))).filter (· ∈ em)).Nodup := by
+  refine ⟨rfl, ?_, ?_⟩
+  · intro n
+    simp only [List.mem_filter, mem_dedup, List.mem_map, decide_eq_true_eq]
+  · exact List.Nodup.sublist List.filter_sublist (nodup_dedup _)
+
 end Slinky.C10
